@@ -341,4 +341,384 @@ theorem fmtG_fixed (q : Rat) (r s : Nat) (hr : 100000 ≤ r) (hr' : r < 1000000)
   have : (5 - (5 - (s : Int))).toNat = s := by omega
   rw [this]
 
+/-- integers below a million print as their digits -/
+theorem fmtG_nat (n : Nat) (h : n < 1000000) : fmtG (n : Rat) = natDigits n := by
+  by_cases h0 : n = 0
+  · subst h0; rfl
+  · obtain ⟨j, hj, h1, h2⟩ : ∃ j, j ≤ 5 ∧ 100000 ≤ n * 10 ^ j ∧ n * 10 ^ j < 1000000 := by
+      by_cases c1 : n < 10
+      · exact ⟨5, by omega, by norm_num; omega, by norm_num; omega⟩
+      by_cases c2 : n < 100
+      · exact ⟨4, by omega, by norm_num; omega, by norm_num; omega⟩
+      by_cases c3 : n < 1000
+      · exact ⟨3, by omega, by norm_num; omega, by norm_num; omega⟩
+      by_cases c4 : n < 10000
+      · exact ⟨2, by omega, by norm_num; omega, by norm_num; omega⟩
+      by_cases c5 : n < 100000
+      · exact ⟨1, by omega, by norm_num; omega, by norm_num; omega⟩
+      · exact ⟨0, by omega, by norm_num; omega, by norm_num; omega⟩
+    have hq : |(n : Rat)| = ((n * 10 ^ j : Nat) : Rat) / 10 ^ j := by
+      rw [abs_of_nonneg (by positivity)]
+      push_cast
+      field_simp
+    rw [fmtG_fixed (n : Rat) (n * 10 ^ j) j h1 h2 (by omega) hq]
+    have : ¬ ((n : Rat) < 0) := not_lt.mpr (by positivity)
+    rw [if_neg this, renderFixed_int]
+
+theorem fmtG_int (z : Int) (h : z.natAbs < 1000000) :
+    fmtG (z : Rat) = if z < 0 then '-' :: natDigits z.natAbs else natDigits z.natAbs := by
+  by_cases hz : z < 0
+  · rw [if_pos hz]
+    have hne : z.natAbs ≠ 0 := by omega
+    have e : (z : Rat) = -((z.natAbs : Nat) : Rat) := by
+      have : z = -(z.natAbs : Int) := by omega
+      conv_lhs => rw [this]
+      rw [Int.cast_neg, Int.cast_natCast]
+    -- same digits as the absolute value, with a minus sign
+    have hpos := fmtG_nat z.natAbs h
+    obtain ⟨j, hj, h1, h2⟩ : ∃ j, j ≤ 5 ∧ 100000 ≤ z.natAbs * 10 ^ j ∧ z.natAbs * 10 ^ j < 1000000 := by
+      generalize z.natAbs = n at h hne
+      by_cases c1 : n < 10
+      · exact ⟨5, by omega, by norm_num; omega, by norm_num; omega⟩
+      by_cases c2 : n < 100
+      · exact ⟨4, by omega, by norm_num; omega, by norm_num; omega⟩
+      by_cases c3 : n < 1000
+      · exact ⟨3, by omega, by norm_num; omega, by norm_num; omega⟩
+      by_cases c4 : n < 10000
+      · exact ⟨2, by omega, by norm_num; omega, by norm_num; omega⟩
+      by_cases c5 : n < 100000
+      · exact ⟨1, by omega, by norm_num; omega, by norm_num; omega⟩
+      · exact ⟨0, by omega, by norm_num; omega, by norm_num; omega⟩
+    have hq : |(z : Rat)| = ((z.natAbs * 10 ^ j : Nat) : Rat) / 10 ^ j := by
+      rw [e, abs_neg, abs_of_nonneg (by positivity)]
+      push_cast
+      field_simp
+    rw [fmtG_fixed (z : Rat) (z.natAbs * 10 ^ j) j h1 h2 (by omega) hq]
+    have : (z : Rat) < 0 := by exact_mod_cast hz
+    rw [if_pos this, renderFixed_int]
+  · rw [if_neg hz]
+    have e : (z : Rat) = ((z.natAbs : Nat) : Rat) := by
+      have : z = (z.natAbs : Int) := by omega
+      conv_lhs => rw [this]
+      rw [Int.cast_natCast]
+    rw [e, fmtG_nat _ h]
+
+/-! ### characters -/
+
+theorem digit_facts {c : Char} (h : isDigit c = true) :
+    isSpace c = false ∧ isSep c = false ∧ (c == '/') = false ∧ (c == '-') = false ∧ (c == '+') = false
+      ∧ (c == ',') = false := by
+  unfold isDigit at h
+  simp only [Bool.and_eq_true, decide_eq_true_eq] at h
+  have hne : ∀ d : Char, (d.toNat < 48 ∨ 57 < d.toNat) → (c == d) = false := by
+    intro d hd
+    rw [beq_eq_false_iff_ne]
+    intro hcd; rw [hcd] at h; omega
+  refine ⟨?_, ?_, hne '/' (by decide), hne '-' (by decide), hne '+' (by decide), hne ',' (by decide)⟩
+  · unfold isSpace
+    rw [hne ' ' (by decide), hne '\t' (by decide), hne '\n' (by decide), hne '\r' (by decide)]
+    simp; omega
+  · unfold isSep
+    rw [hne '.' (by decide), hne ',' (by decide)]; rfl
+
+theorem spanDigits_append {ds tail : List Char} (hd : AllDigits ds)
+    (ht : ∀ c rest, tail = c :: rest → isDigit c = false) : spanDigits (ds ++ tail) = (ds, tail) := by
+  induction ds with
+  | nil =>
+    cases tail with
+    | nil => rfl
+    | cons c rest => simp [spanDigits, ht c rest rfl]
+  | cons d ds ih =>
+    have hd1 : isDigit d = true := hd d (by simp)
+    have := ih (fun c hc => hd c (by simp [hc]))
+    simp [spanDigits, hd1, this]
+
+theorem spanDigits_all {ds : List Char} (hd : AllDigits ds) : spanDigits ds = (ds, []) := by
+  have := spanDigits_append (tail := []) hd (by intro c rest h; cases h)
+  simpa using this
+
+theorem skipSpaces_head {cs : List Char} (h : ∀ c rest, cs = c :: rest → isSpace c = false) : skipSpaces cs = cs := by
+  cases cs with
+  | nil => rfl
+  | cons c rest => simp [skipSpaces, h c rest rfl]
+
+theorem prefixesDesc_head (ds : List Char) (hne : ds ≠ []) :
+    ∃ more, prefixesDesc ds.length ds = (ds, []) :: more := by
+  cases hl : ds.length with
+  | zero => exact absurd (List.length_eq_zero_iff.mp hl) hne
+  | succ n =>
+    refine ⟨prefixesDesc n ds, ?_⟩
+    show prefixesDesc (n + 1) ds = _
+    simp only [prefixesDesc]
+    rw [List.take_of_length_le (by omega), List.drop_eq_nil_of_le (by omega)]
+
+/-! ### the matcher on formatted numbers -/
+
+/-- what may follow a number inside a formatted value: nothing, a blank or the slash -/
+def GoodTail (tail : List Char) : Prop :=
+  ∀ c rest, tail = c :: rest → isDigit c = false ∧ isSep c = false
+
+theorem goodTail_nil : GoodTail [] := by intro c rest h; cases h
+theorem goodTail_space (rest : List Char) : GoodTail (' ' :: rest) := by
+  intro c r h; cases h; exact ⟨by decide, by decide⟩
+theorem goodTail_slash (rest : List Char) : GoodTail ('/' :: rest) := by
+  intro c r h; cases h; exact ⟨by decide, by decide⟩
+
+theorem numText_ne_nil {cs : List Char} {q : Rat} (h : NumText cs q) : cs ≠ [] := by
+  obtain ⟨ip, fp, rfl, hne, -⟩ := h
+  simp [hne]
+
+/-- the greedy candidate of `NUM` on a number text followed by a good tail is the whole number -/
+theorem numCandsU_head {cs tail : List Char} {q : Rat} (h : NumText cs q) (ht : GoodTail tail) :
+    (numCandsU (cs ++ tail)).head? = some (cs, tail) := by
+  obtain ⟨ip, fp, rfl, hne, hip, hfp, -⟩ := h
+  have hipE : ip.isEmpty = false := by cases ip with
+    | nil => exact absurd rfl hne
+    | cons _ _ => rfl
+  obtain ⟨m1, hm1⟩ := prefixesDesc_head ip hne
+  by_cases hf : fp = []
+  · subst hf
+    simp only [if_true, List.append_nil]
+    have hsp : spanDigits (ip ++ tail) = (ip, tail) := spanDigits_append hip (fun c r h => (ht c r h).1)
+    unfold numCandsU
+    simp only [hsp, hipE, Bool.false_eq_true, if_false, hm1]
+    cases tail with
+    | nil => simp
+    | cons c rest =>
+      have := (ht c rest rfl).2
+      simp only [this, Bool.false_eq_true, if_false]
+      simp
+  · rw [if_neg hf]
+    obtain ⟨m2, hm2⟩ := prefixesDesc_head fp hf
+    have hsp : spanDigits ((ip ++ '.' :: fp) ++ tail) = (ip, '.' :: (fp ++ tail)) := by
+      have : (ip ++ '.' :: fp) ++ tail = ip ++ ('.' :: (fp ++ tail)) := by simp
+      rw [this]
+      exact spanDigits_append hip (by intro c r h; cases h; decide)
+    have hsp2 : spanDigits (fp ++ tail) = (fp, tail) := spanDigits_append hfp (fun c r h => (ht c r h).1)
+    unfold numCandsU
+    simp only [hsp, hipE, Bool.false_eq_true, if_false]
+    have hs : isSep '.' = true := by decide
+    simp only [hs, if_true, hsp2, hm2]
+    simp
+
+theorem numCandsU_numText {cs tail : List Char} {q : Rat} (h : NumText cs q) (ht : GoodTail tail) :
+    ∃ more, numCandsU (cs ++ tail) = (cs, tail) :: more := by
+  have := numCandsU_head h ht
+  rw [List.head?_eq_some_iff] at this
+  exact this
+
+theorem readUnsigned_numText {cs : List Char} {q : Rat} (h : NumText cs q) : readUnsigned cs = .ok q := by
+  obtain ⟨ip, fp, rfl, hne, hip, hfp, rfl⟩ := h
+  have hnc : ∀ l : List Char, AllDigits l → l.any (· == ',') = false := by
+    intro l hl
+    rw [List.any_eq_false]
+    intro c hc
+    have := (digit_facts (hl c hc)).2.2.2.2.2
+    simpa using this
+  by_cases hf : fp = []
+  · subst hf
+    simp only [if_true, List.append_nil]
+    unfold readUnsigned
+    rw [hnc ip hip]
+    simp only [Bool.false_eq_true, if_false, spanDigits_all hip]
+    simp
+  · rw [if_neg hf]
+    unfold readUnsigned
+    have hany : (ip ++ '.' :: fp).any (· == ',') = false := by
+      rw [List.any_append, hnc ip hip]
+      simp only [List.any_cons, hnc fp hfp]
+      decide
+    rw [hany]
+    have hsp : spanDigits (ip ++ '.' :: fp) = (ip, '.' :: fp) :=
+      spanDigits_append hip (by intro c r h; cases h; decide)
+    simp only [Bool.false_eq_true, if_false, hsp]
+
+/-- a number text with an optional minus sign -/
+def SNumText (cs : List Char) (q : Rat) : Prop :=
+  (∃ u v, cs = '-' :: u ∧ NumText u v ∧ q = -v) ∨ NumText cs q
+
+theorem numText_head {cs : List Char} {q : Rat} (h : NumText cs q) :
+    ∃ d rest, cs = d :: rest ∧ isDigit d = true := by
+  obtain ⟨ip, fp, rfl, hne, hip, -⟩ := h
+  cases ip with
+  | nil => exact absurd rfl hne
+  | cons d r => exact ⟨d, _, rfl, hip d (by simp)⟩
+
+/-- a signed number text starts with a character that is neither a blank nor the slash -/
+theorem snumText_head {cs : List Char} {q : Rat} (h : SNumText cs q) :
+    ∃ c rest, cs = c :: rest ∧ isSpace c = false ∧ (c == '/') = false := by
+  rcases h with ⟨u, v, rfl, -, -⟩ | h
+  · exact ⟨'-', u, rfl, by decide, by decide⟩
+  · obtain ⟨d, rest, rfl, hd⟩ := numText_head h
+    exact ⟨d, rest, rfl, (digit_facts hd).1, (digit_facts hd).2.2.1⟩
+
+theorem numCands_snumText {cs tail : List Char} {q : Rat} (h : SNumText cs q) (ht : GoodTail tail) :
+    ∃ more, numCands (cs ++ tail) = (cs, tail) :: more := by
+  rcases h with ⟨u, v, rfl, hu, -⟩ | h
+  · obtain ⟨more, hm⟩ := numCandsU_numText hu ht
+    refine ⟨more.map (fun p => ('-' :: p.1, p.2)), ?_⟩
+    show numCands ('-' :: (u ++ tail)) = _
+    simp [numCands, hm]
+  · obtain ⟨d, rest, hcs, hd⟩ := numText_head h
+    obtain ⟨more, hm⟩ := numCandsU_numText h ht
+    refine ⟨more, ?_⟩
+    rw [← hm]
+    have hf := digit_facts hd
+    subst hcs
+    show numCands (d :: (rest ++ tail)) = _
+    simp [numCands, hf.2.2.2.1, hf.2.2.2.2.1]
+
+theorem readFloat_snumText {cs : List Char} {q : Rat} (h : SNumText cs q) : readFloat cs = .ok q := by
+  rcases h with ⟨u, v, rfl, hu, rfl⟩ | h
+  · simp [readFloat, readUnsigned_numText hu]
+  · obtain ⟨d, rest, hcs, hd⟩ := numText_head h
+    have hf := digit_facts hd
+    have h1 : d ≠ '-' := by have := hf.2.2.2.1; simpa using this
+    have h2 : d ≠ '+' := by have := hf.2.2.2.2.1; simpa using this
+    have hr := readUnsigned_numText h
+    subst hcs
+    unfold readFloat
+    split
+    · rename_i cs' heq; cases heq; exact absurd rfl h1
+    · rename_i cs' heq; cases heq; exact absurd rfl h2
+    · exact hr
+
+/-- `NUM \s*/\s* \d+ $` on `numerator/denominator` -/
+theorem fracPart_some {n d : List Char} {q : Rat} (hn : SNumText n q) (hd : AllDigits d) (hne : d ≠ []) :
+    fracPart (n ++ '/' :: d) = some (n, d) := by
+  obtain ⟨more, hm⟩ := numCands_snumText hn (goodTail_slash d)
+  unfold fracPart
+  rw [hm]
+  simp only
+  have h1 : skipSpaces ('/' :: d) = '/' :: d := skipSpaces_head (by intro c r h; cases h; decide)
+  rw [h1]
+  simp only [beq_self_eq_true, if_true]
+  have h2 : skipSpaces d = d := skipSpaces_head (by
+    intro c r h; exact (digit_facts (hd c (by simp [h]))).1)
+  rw [h2, spanDigits_all hd]
+  have : d.isEmpty = false := by cases d with
+    | nil => exact absurd rfl hne
+    | cons _ _ => rfl
+  simp [this]
+
+/-- no fraction part when the text is a number alone -/
+theorem fracPart_number {n : List Char} {q : Rat} (hn : SNumText n q) : fracPart n = none := by
+  obtain ⟨more, hm⟩ := numCands_snumText hn goodTail_nil
+  rw [List.append_nil] at hm
+  unfold fracPart
+  rw [hm]
+  simp [skipSpaces]
+
+/-- … nor when a second number follows after a blank -/
+theorem fracPart_two {n f rest : List Char} {q q' : Rat} (hn : SNumText n q) (hf : SNumText f q') :
+    fracPart (n ++ ' ' :: (f ++ rest)) = none := by
+  obtain ⟨more, hm⟩ := numCands_snumText hn (goodTail_space (f ++ rest))
+  obtain ⟨c, r, rfl, hc1, hc2⟩ := snumText_head hf
+  unfold fracPart
+  rw [hm]
+  simp only
+  have : skipSpaces (' ' :: (c :: r ++ rest)) = c :: (r ++ rest) := by
+    show skipSpaces (' ' :: c :: (r ++ rest)) = _
+    simp [skipSpaces, hc1]
+    decide
+  rw [this]
+  simp [hc2]
+
+/-! ### `str.strip()` leaves a formatted value alone -/
+
+theorem stripSpaces_id {cs : List Char} (h1 : ∀ c rest, cs = c :: rest → isSpace c = false)
+    (h2 : ∃ pre c, cs = pre ++ [c] ∧ isSpace c = false) : stripSpaces cs = cs := by
+  unfold stripSpaces
+  rw [skipSpaces_head h1]
+  obtain ⟨pre, c, rfl, hc⟩ := h2
+  have : (pre ++ [c]).reverse = c :: pre.reverse := by simp
+  rw [this, skipSpaces_head (by intro d r h; cases h; exact hc)]
+  simp
+
+theorem ends_of_digits (pre l : List Char) (hl : AllDigits l) (hne : l ≠ []) :
+    ∃ p c, pre ++ l = p ++ [c] ∧ isSpace c = false := by
+  refine ⟨pre ++ l.dropLast, l.getLast hne, ?_, (digit_facts (hl _ (List.getLast_mem hne))).1⟩
+  rw [List.append_assoc, List.dropLast_append_getLast]
+
+theorem snumText_ends {cs : List Char} {q : Rat} (h : SNumText cs q) :
+    ∃ pre l, cs = pre ++ l ∧ AllDigits l ∧ l ≠ [] := by
+  have key : ∀ {u : List Char} {v : Rat}, NumText u v → ∃ pre l, u = pre ++ l ∧ AllDigits l ∧ l ≠ [] := by
+    intro u v hu
+    obtain ⟨ip, fp, rfl, hne, hip, hfp, -⟩ := hu
+    by_cases hf : fp = []
+    · exact ⟨[], ip, by simp [hf], hip, hne⟩
+    · exact ⟨ip ++ ['.'], fp, by simp [hf], hfp, hf⟩
+  rcases h with ⟨u, v, rfl, hu, -⟩ | h
+  · obtain ⟨pre, l, rfl, hl, hne⟩ := key hu
+    exact ⟨'-' :: pre, l, rfl, hl, hne⟩
+  · exact key h
+
+/-! ### `CreateFromString` on the two shapes `str()` produces -/
+
+/-- `"<number>"` -/
+theorem parse_number {n : List Char} {q : Rat} (hn : SNumText n q) : parse n = .ok ⟨q, ⟨0⟩⟩ := by
+  obtain ⟨c, r, hcs, hc1, -⟩ := snumText_head hn
+  obtain ⟨pre, l, hpl, hl, hlne⟩ := snumText_ends hn
+  have hstrip : stripSpaces n = n := by
+    apply stripSpaces_id
+    · intro c' r' h; rw [hcs] at h; cases h; exact hc1
+    · rw [hpl]; exact ends_of_digits pre l hl hlne
+  have hne : n.isEmpty = false := by rw [hcs]; rfl
+  obtain ⟨more, hm⟩ := numCands_snumText hn goodTail_nil
+  rw [List.append_nil] at hm
+  unfold parse
+  rw [hstrip]
+  have hp : matchPartial n = none := by
+    unfold matchPartial
+    rw [hne]; simp [fracPart_number hn]
+  have hfull : matchFull n = some ⟨some n, none⟩ := by
+    unfold matchFull
+    rw [hm]; simp [matchFullCands, skipSpaces]
+  rw [hp, hfull]
+  simp only [fromGroups, readFloat_snumText hn]
+  have h0 : Frac.init (.fin 0) (some (.fin 1)) = .ok ⟨0⟩ := by
+    rw [init_fin_fin 0 1 (by norm_num)]
+    have := normalise_int 0 1
+    simpa using this
+  simp [FV.init, setFraction, h0]
+
+/-- `"<number> <numerator>/<denominator>"` -/
+theorem parse_mixed {n f d : List Char} {q : Rat} {a : Int} {b : Nat} (hn : SNumText n q)
+    (hf : SNumText f (a : Rat)) (hd : AllDigits d) (hdne : d ≠ []) (hdv : readDigits d = b) (hb : b ≠ 0) :
+    parse (n ++ ' ' :: (f ++ '/' :: d)) = .ok ⟨q, ⟨(a : Rat) / (b : Rat)⟩⟩ := by
+  set text := n ++ ' ' :: (f ++ '/' :: d) with htext
+  obtain ⟨c, r, hcs, hc1, -⟩ := snumText_head hn
+  have hstrip : stripSpaces text = text := by
+    apply stripSpaces_id
+    · intro c' r' h; rw [htext, hcs] at h; cases h; exact hc1
+    · have : text = (n ++ ' ' :: (f ++ ['/'])) ++ d := by simp [htext]
+      rw [this]; exact ends_of_digits _ d hd hdne
+  have hne : text.isEmpty = false := by rw [htext, hcs]; rfl
+  obtain ⟨more, hm⟩ := numCands_snumText hn (goodTail_space (f ++ '/' :: d))
+  unfold parse
+  rw [hstrip]
+  have hp : matchPartial text = none := by
+    unfold matchPartial
+    rw [hne]; simp [htext, fracPart_two hn hf]
+  obtain ⟨c2, r2, hf2, hc21, hc22⟩ := snumText_head hf
+  have hskip : skipSpaces (' ' :: (f ++ '/' :: d)) = f ++ '/' :: d := by
+    rw [hf2]
+    show skipSpaces (' ' :: c2 :: (r2 ++ '/' :: d)) = _
+    simp [skipSpaces, hc21]
+    decide
+  have hfull : matchFull text = some ⟨some n, some (f, d)⟩ := by
+    unfold matchFull
+    rw [htext, hm]
+    unfold matchFullCands
+    rw [hskip]
+    have hfp := fracPart_some hf hd hdne
+    rw [hf2] at hfp ⊢
+    simp only [List.cons_append] at hfp ⊢
+    rw [hfp]
+  rw [hp, hfull]
+  simp only [fromGroups, readFloat_snumText hn, readFloat_snumText hf, hdv]
+  have hbR : ((b : Nat) : Rat) ≠ 0 := by exact_mod_cast hb
+  rw [init_fin_fin _ _ hbR, normalise_int]
+  simp [FV.init, setFraction]
+
 end Barril.Frac
